@@ -1718,6 +1718,9 @@ def alias_stream(ctx, cat):
                         arr[...] = (np.arange(arr.size).reshape(arr.shape) % 5 + 1) * (3 if arr.dtype.kind == 'f' else 2)
                     except ValueError:
                         fail(ctx, 'C07:%s:constructor-modifies-caller-data' % cls, '%s left the caller\'s array %r read-only' % (cls, k), dict(d, changed=[k]))
+                for k in list(data):
+                    if k not in ARRAY_KEYS[shape] and isinstance(data[k], float):
+                        data[k] = data[k] * 7.0 + 1.0          # the scalar entries (sref, qref) of the caller's dict too
                 res1 = [impl_eval(r, p[1]) for p in pts]
                 for (kind, args, info), a0, aref, amid, a1 in zip(pts, res0, res_ref, res_mid, res1):
                     n += 1
